@@ -140,7 +140,28 @@ def open_concat(case, parts):
                         p.dataset.select(scans='track', channels=slice(0, 1))
                     except Exception:   # noqa: BLE001
                         pass
-        return ConcatenatedDataSet([p.dataset for p in ordered])
+        dsets = [p.dataset for p in ordered]
+        if case['seed'] % 5 == 1:
+            # a refused attempt first (one of the parts offered together with a data set of another dump period):
+            # "differing dump periods refused" - and the refusal leaves the offered parts as they were
+            import random
+            from harness import v4synth
+            from katdal.concatdata import ConcatenationError
+            slow = v4synth.make_v4(random.Random(case['seed']), T=3, F=len(ordered[-1].freqs), n_ants=2,
+                                   int_time=2.0 * float(dsets[-1].dump_period)).dataset
+            try:
+                ConcatenatedDataSet([dsets[-1], slow])
+                raise AssertionError('a data set of twice the dump period was accepted for concatenation')
+            except ConcatenationError:
+                case['_refused_first'] = True
+        if case['seed'] % 5 == 2 and len(dsets) >= 3:
+            # some of the parts were already combined: a combined data set is itself a data set and can be a part
+            # (the earliest part on its own, the later ones combined first, so that the whole is still chronological)
+            case['_nested'] = True
+            first = min(ordered, key=lambda p: p.start)
+            rest = [p.dataset for p in ordered if p is not first]
+            return ConcatenatedDataSet([ConcatenatedDataSet(rest), first.dataset])
+        return ConcatenatedDataSet(dsets)
     return katdal.open([p.path for p in ordered])
 
 
@@ -171,6 +192,10 @@ def run_case(ctx, case):
                 return f'opening the parts together raised {type(e).__name__}: {str(e)[:120]}', False
             if differing:
                 return (f'data sets with differing dump periods {periods} were concatenated instead of refused'), False
+            if case.get('_refused_first'):
+                ctx.tag('refused-attempt-first')
+            if case.get('_nested'):
+                ctx.tag('nested-concatenation')
             try:
                 if case.get('multi'):
                     return drive_multi(ctx, case, parts, d)
